@@ -334,10 +334,10 @@ run_tq(FILE * f)
 	}
 	/* Drain with a time later than everything. */
 	if (Q != NULL && !stop) {
-		tv.tv_sec = 1000000; tv.tv_usec = 0;
+		tv.tv_sec = 2000000000; tv.tv_usec = 0;		/* later than any time a program uses */
 		for (i = 0; i <= MAXEL + 1; i++) {
 			id = tentid(timerqueue_getptr(Q, &tv));
-			vt_begin("t_getptr"); vt_int("s", 1000000); vt_int("u", 0); vt_int("id", id); vt_end();
+			vt_begin("t_getptr"); vt_int("s", 2000000000); vt_int("u", 0); vt_int("id", id); vt_end();
 			if (id <= 0)
 				break;
 			tents[id].in = 0;
